@@ -318,6 +318,7 @@ LEGIT: Dict[str, str] = {
     "context:Context._global_parseint:s": "neither '' nor 'undefined' starts with a digit: both are NaN",
     "context:Context._global_parsefloat:s": "neither '' nor 'undefined' starts with a number: both are NaN",
     "context:Context._create_json_object.parse_fn:text": "neither '' nor 'undefined' is a JSON text: both are a SyntaxError",
+    "vm:VM._make_array_method.lastIndexOf_fn:start": "ECMAScript counts the arguments of Array.prototype.lastIndexOf: without fromIndex the search starts at the last element, a fromIndex that is present converts (undefined to 0)",
     "vm:VM._make_array_method.splice_fn:delete_count": "ECMAScript counts the actual arguments of splice: with one argument everything from start on is removed, an explicit undefined removes nothing",
 }
 
